@@ -23,8 +23,18 @@ Fixpoint has_transition (tr:list (N * nat)) (t:N) : option nat :=
       end
   end.
 
+(* What the iterator needs from a scanner: the match at the start of a haystack in a mode
+   (token type, length in bytes) and the mode's transitions. Panic = scanner_modes[mode]. *)
+Record scanner := {
+  sc_find : nat -> list N -> res (option (N * nat));
+  sc_trans : nat -> res (list (N * nat)) }.
+
+(* the scanner the implementation builds: compiled modes with the class predicate tbl *)
+Definition impl_scanner (tbl:N -> N -> bool) (modes:list cmode) : scanner :=
+  {| sc_find := fun m s => match nth_error modes m with None => Panic | Some cm => find_mode tbl (aut cm) s end;
+     sc_trans := fun m => match nth_error modes m with None => Panic | Some cm => Ok (mtrans cm) end |}.
+
 Record iter := {
-  it_modes : list cmode;          (* scanner_impl.scanner_modes *)
   it_mode : nat;                  (* scanner_impl.current_mode *)
   it_input : list N;              (* input *)
   it_rest : list N;               (* remaining characters of char_indices *)
@@ -35,26 +45,26 @@ Record iter := {
   it_offset : nat }.
 
 Definition set_rest (st:iter) (rest:list N) (rel:nat) : iter :=
-  {| it_modes := it_modes st; it_mode := it_mode st; it_input := it_input st; it_rest := rest; it_rel := rel;
+  {| it_mode := it_mode st; it_input := it_input st; it_rest := rest; it_rel := rel;
      it_last_position := it_last_position st; it_last_char := it_last_char st; it_lines := it_lines st;
      it_offset := it_offset st |}.
 Definition set_mode (st:iter) (m:nat) : iter :=
-  {| it_modes := it_modes st; it_mode := m; it_input := it_input st; it_rest := it_rest st; it_rel := it_rel st;
+  {| it_mode := m; it_input := it_input st; it_rest := it_rest st; it_rel := it_rel st;
      it_last_position := it_last_position st; it_last_char := it_last_char st; it_lines := it_lines st;
      it_offset := it_offset st |}.
 Definition set_lines (st:iter) (lc:N) (lines:list nat) : iter :=
-  {| it_modes := it_modes st; it_mode := it_mode st; it_input := it_input st; it_rest := it_rest st; it_rel := it_rel st;
+  {| it_mode := it_mode st; it_input := it_input st; it_rest := it_rest st; it_rel := it_rel st;
      it_last_position := it_last_position st; it_last_char := lc; it_lines := lines;
      it_offset := it_offset st |}.
 Definition set_last_position (st:iter) (p:nat) : iter :=
-  {| it_modes := it_modes st; it_mode := it_mode st; it_input := it_input st; it_rest := it_rest st; it_rel := it_rel st;
+  {| it_mode := it_mode st; it_input := it_input st; it_rest := it_rest st; it_rel := it_rel st;
      it_last_position := p; it_last_char := it_last_char st; it_lines := it_lines st;
      it_offset := it_offset st |}.
 
 (* FindMatchesImpl::new + ScannerImpl::reset; Scanner::find_iter clones the ScannerImpl, whose
    current_mode (whatever it is) is overwritten by reset *)
-Definition find_iter (modes:list cmode) (scanner_mode:nat) (input:list N) : iter :=
-  {| it_modes := modes; it_mode := 0; it_input := input; it_rest := input; it_rel := 0;
+Definition find_iter (scanner_mode:nat) (input:list N) : iter :=
+  {| it_mode := 0; it_input := input; it_rest := input; it_rel := 0;
      it_last_position := 0; it_last_char := 0%N; it_lines := [0]; it_offset := 0 |}.
 
 (* is the list strictly ascending (the debug_assert! of merge_line_offsets) *)
@@ -85,7 +95,7 @@ Definition set_offset (st:iter) (o:nat) : res iter :=
   match drop_bytes o' (it_input st) with
   | None => Panic                                  (* str slice on a non-boundary *)
   | Some rest =>
-      Ok {| it_modes := it_modes st; it_mode := it_mode st; it_input := it_input st;
+      Ok {| it_mode := it_mode st; it_input := it_input st;
             it_rest := rest; it_rel := 0; it_last_position := 0;
             it_last_char := char_before o' (it_input st) 0%N;
             it_lines := it_lines st; it_offset := o' |}
@@ -114,34 +124,30 @@ Definition advance_to (st:iter) (position:nat) : res (iter * nat) :=
     match lines with
     | Panic => Panic
     | Ok lines =>
-        Ok ({| it_modes := it_modes st; it_mode := it_mode st; it_input := it_input st;
+        Ok ({| it_mode := it_mode st; it_input := it_input st;
                it_rest := rest; it_rel := rel; it_last_position := newp; it_last_char := lc;
                it_lines := lines; it_offset := it_offset st |}, newp)
     end.
 
 Section Scan.
-Variable tbl : N -> N -> bool.
+Variable sc : scanner.
 
 (* a match: token type, start, end (absolute bytes) *)
 Definition tokn := (N * nat * nat)%type.
 
 (* ScannerImpl::peek_from on the automaton of the current mode; result relative to the reset *)
-Definition peek_from (modes:list cmode) (mode:nat) (rest:list N) (rel:nat) : res (option tokn) :=
-  match nth_error modes mode with
-  | None => Panic                                   (* scanner_modes[current_mode] *)
-  | Some cm =>
-      match find_mode tbl (aut cm) rest with
-      | Panic => Panic
-      | Ok None => Ok None
-      | Ok (Some (t, e)) => if e =? 0 then Panic    (* debug_assert!(!matched.is_empty()) *)
-                            else Ok (Some (t, rel, rel + e))
-      end
+Definition peek_from (mode:nat) (rest:list N) (rel:nat) : res (option tokn) :=
+  match sc_find sc mode rest with
+  | Panic => Panic                                (* scanner_modes[current_mode], priority_of *)
+  | Ok None => Ok None
+  | Ok (Some (t, e)) => if e =? 0 then Panic      (* debug_assert!(!matched.is_empty()) *)
+                        else Ok (Some (t, rel, rel + e))
   end.
 
-Definition mode_has_transition (modes:list cmode) (mode:nat) (t:N) : res (option nat) :=
-  match nth_error modes mode with
-  | None => Panic
-  | Some cm => Ok (has_transition (mtrans cm) t)
+Definition mode_has_transition (mode:nat) (t:N) : res (option nat) :=
+  match sc_trans sc mode with
+  | Panic => Panic
+  | Ok tr => Ok (has_transition tr t)
   end.
 
 (* next_match: the loop has at most one iteration per remaining character plus one *)
@@ -149,11 +155,11 @@ Fixpoint next_loop (fuel:nat) (st:iter) : res (iter * option tokn) :=
   match fuel with
   | 0 => Panic     (* not reachable: fuel is length rest + 1 *)
   | S fuel' =>
-      match peek_from (it_modes st) (it_mode st) (it_rest st) (it_rel st) with
+      match peek_from (it_mode st) (it_rest st) (it_rel st) with
       | Panic => Panic
       | Ok (Some (t, s, e)) =>
           (* execute_possible_mode_switch *)
-          match mode_has_transition (it_modes st) (it_mode st) t with
+          match mode_has_transition (it_mode st) t with
           | Panic => Panic
           | Ok sw =>
               let st1 := match sw with Some m => set_mode st m | None => st end in
@@ -197,18 +203,18 @@ Inductive peek_result :=
 | PNotFound.
 
 (* the inner loop of peek_n: try, skip one character, try again *)
-Fixpoint peek_find (fuel:nat) (modes:list cmode) (mode:nat) (rest:list N) (rel:nat)
+Fixpoint peek_find (fuel:nat) (mode:nat) (rest:list N) (rel:nat)
   : res (option tokn * list N * nat) :=
   match fuel with
   | 0 => Panic
   | S fuel' =>
-      match peek_from modes mode rest rel with
+      match peek_from mode rest rel with
       | Panic => Panic
       | Ok (Some m) => Ok (Some m, rest, rel)
       | Ok None =>
           match rest with
           | [] => Ok (None, rest, rel)
-          | c :: rest' => peek_find fuel' modes mode rest' (rel + len_utf8 c)
+          | c :: rest' => peek_find fuel' mode rest' (rel + len_utf8 c)
           end
       end
   end.
@@ -217,13 +223,13 @@ Fixpoint peek_loop (n:nat) (st:iter) (rest:list N) (rel:nat) (ms:list tokn) : re
   match n with
   | 0 => Ok (ms, None)
   | S n' =>
-      match peek_find (S (length rest)) (it_modes st) (it_mode st) rest rel with
+      match peek_find (S (length rest)) (it_mode st) rest rel with
       | Panic => Panic
       | Ok (None, _, _) => Ok (ms, None)
       | Ok (Some (t, s, e), rest1, rel1) =>
           let '(rest2, rel2) := if e =? s then (rest1, rel1) else skip_to e rest1 rel1 in
           let ms' := ms ++ [(t, s + it_offset st, e + it_offset st)] in
-          match mode_has_transition (it_modes st) (it_mode st) t with
+          match mode_has_transition (it_mode st) t with
           | Panic => Panic
           | Ok (Some m) => Ok (ms', Some m)
           | Ok None => peek_loop n' st rest2 rel2 ms'
